@@ -10,6 +10,7 @@ from stix2.base import _STIXBase
 from stix2.datastore import DataSink, DataSource, DataStoreMixin
 from stix2.datastore.filters import FilterSet, apply_common_filters
 from stix2.parsing import parse
+from stix2.utils import parse_into_datetime
 
 
 def _add(store, stix_data, allow_custom=True, version=None):
@@ -62,6 +63,16 @@ def _add(store, stix_data, allow_custom=True, version=None):
             store._data[stix_obj["id"]] = stix_obj
 
 
+def _modified_time(stix_obj):
+    """Get an object's "modified" value as a datetime.  Custom content which
+    could not be parsed is kept as a plain dict whose timestamps are strings;
+    those must not be ordered lexically."""
+    modified = stix_obj["modified"]
+    if isinstance(modified, str):
+        modified = parse_into_datetime(modified)
+    return modified
+
+
 class _ObjectFamily(object):
     """
     An internal implementation detail of memory sources/sinks/stores.
@@ -77,7 +88,7 @@ class _ObjectFamily(object):
         self.all_versions[obj["modified"]] = obj
         if (
             self.latest_version is None or
-            obj["modified"] > self.latest_version["modified"]
+            _modified_time(obj) > _modified_time(self.latest_version)
         ):
             self.latest_version = obj
 
